@@ -28,6 +28,7 @@ pub fn output_tokens_for_impl(
         self_ty,
         brace_token: _,
         items,
+        raw_body,
     }: InputImpl,
 ) -> syn::Result<proc_macro2::TokenStream> {
     let trait_span = trait_path
@@ -87,7 +88,7 @@ pub fn output_tokens_for_impl(
     Ok(quote! {
         #(#inherent_sub_attrs)*
         #unsafety #impl_token #self_ty {
-            #(#items)*
+            #raw_body
         }
         #impl_block
     })
